@@ -1,9 +1,867 @@
-// Package c14: check for property C14 (stub until implemented).
+// Package c14: Paillier encryption is correct, additively homomorphic and domain-checked;
+// generated keys are well-formed (ENUM).
+//
+// Enumerated space
+//
+//	tiny keys   : every key (P<Q safe primes of L/2 bits, |N|=L, |P-Q| per the library's bound) for the
+//	              listed tiny L, built by hand exactly as GenerateKeyPair fills the struct:
+//	              ALL ciphertexts c in [0,N^2) (Decrypt vs CRT reference, non-units refused),
+//	              ALL m in [0,N) (Encrypt / Decrypt / CRT), ALL (m1,m2) for HomoAdd, ALL (k,m) for HomoMult.
+//	small keys  : every key the generator can return for modulus length 18, 20 (22 in thorough)
+//	              (top two bits of (P-1)/2 set): ALL m in [0,N).
+//	every key   : (tiny, small, 5 vendored 2048-bit, every key returned by GenerateKeyPair for the listed
+//	              sizes x 8 seeds) the boundary battery: plaintext alphabet {0,1,N-1,N/2,generic..}:
+//	              all elements (twice: freshness, unit), all pairs and triples for the homomorphic laws,
+//	              every out-of-domain operand just outside each bound.
+//	generated   : modulus length exact, P != Q safe primes, |P-Q| bound, PhiN, LambdaN.
 package c14
 
-import "verif/internal/core"
+import (
+	"context"
+	"fmt"
+	"io"
+	"math/big"
+	"runtime"
+	"runtime/debug"
+	"sort"
+	"sync/atomic"
+	"time"
 
-// Implemented reports whether this check is built.
-const Implemented = false
+	"github.com/bnb-chain/tss-lib/v2/crypto/paillier"
 
-func Run(r *core.Run) { r.Cap("not implemented") }
+	"verif/internal/core"
+	"verif/internal/fix"
+)
+
+const Implemented = true
+
+// The library's own "far apart" bound (paillier.go: pQBitLenDifference = 3).
+const pqBitLenDifference = 3
+
+// strictNonUnitOnHomoOps: the statement says "ciphertexts sharing a factor with N are refused with an error".
+// Decided reading (narrow, matches the property's anchored guard list): the gcd refusal is required where a
+// ciphertext is decrypted (Decrypt); HomoAdd/HomoMult must only enforce the range guards. With false,
+// acceptance of a non-unit by HomoAdd/HomoMult is counted (counter nonunit_accepted_by_homo_ops), not reported;
+// with true every operation taking a ciphertext must refuse it.
+const strictNonUnitOnHomoOps = false
+
+type key struct {
+	name  string
+	class string // tiny | small | vendored | generated
+	L     int    // modulus bit length the key is supposed to have
+	sk    *paillier.PrivateKey
+	crt   *crtKey
+	n2    *big.Int
+}
+
+func handBuilt(P, Q *big.Int) *paillier.PrivateKey {
+	N := new(big.Int).Mul(P, Q)
+	pm1, qm1 := new(big.Int).Sub(P, bigOne), new(big.Int).Sub(Q, bigOne)
+	phi := new(big.Int).Mul(pm1, qm1)
+	g := new(big.Int).GCD(nil, nil, pm1, qm1)
+	lam := new(big.Int).Div(phi, g)
+	return &paillier.PrivateKey{PublicKey: paillier.PublicKey{N: N}, LambdaN: lam, PhiN: phi, P: new(big.Int).Set(P), Q: new(big.Int).Set(Q)}
+}
+
+// keySpace: every unordered pair of distinct safe primes of L/2 bits whose product has exactly L bits and
+// whose difference satisfies the library's bound. reachable=true keeps only primes the generator can emit
+// ((P-1)/2 has its two top bits set).
+func keySpace(L int, reachable bool, class string) []*key {
+	var out []*key
+	ps := safePrimesOfBits(L / 2)
+	for i := 0; i < len(ps); i++ {
+		for j := i + 1; j < len(ps); j++ {
+			P, Q := ps[i], ps[j]
+			if reachable && !(topTwo(P, L/2) && topTwo(Q, L/2)) {
+				continue
+			}
+			N := new(big.Int).Mul(P, Q)
+			if N.BitLen() != L {
+				continue
+			}
+			if new(big.Int).Sub(Q, P).BitLen() < L/2-pqBitLenDifference {
+				continue
+			}
+			crt := newCRT(P, Q)
+			if crt == nil {
+				continue // gcd(N, phi) != 1: not a Paillier key (cannot happen for equal-length safe primes > 3)
+			}
+			out = append(out, (&key{name: fmt.Sprintf("%s-L%d-%sx%s", class, L, P, Q), class: class, L: L, sk: handBuilt(P, Q), crt: crt}).init())
+		}
+	}
+	return out
+}
+
+func topTwo(p *big.Int, bits int) bool {
+	q := new(big.Int).Rsh(p, 1) // (p-1)/2
+	qb := bits - 1
+	return q.BitLen() == qb && q.Bit(qb-1) == 1 && q.Bit(qb-2) == 1
+}
+
+// ---- guarded calls into the library ----
+
+func try(f func()) (pan string) {
+	defer func() {
+		if e := recover(); e != nil {
+			pan = fmt.Sprint(e)
+		}
+	}()
+	f()
+	return ""
+}
+
+type chk struct {
+	r     *core.Run
+	evals int64
+}
+
+func (c *chk) ev(n int64) { atomic.AddInt64(&c.evals, n) }
+
+func (c *chk) encR(k *key, rd io.Reader, m *big.Int, site string) (ct, x *big.Int, err error, ok bool) {
+	if p := try(func() { ct, x, err = k.sk.PublicKey.EncryptAndReturnRandomness(rd, m) }); p != "" {
+		c.r.Violate("encrypt/"+site+"/"+k.class+":panic", "EncryptAndReturnRandomness panicked: "+p, rec(k, "m", m))
+		return nil, nil, nil, false
+	}
+	return ct, x, err, true
+}
+
+func (c *chk) enc(k *key, rd io.Reader, m *big.Int, site string) (ct *big.Int, err error, ok bool) {
+	if p := try(func() { ct, err = k.sk.PublicKey.Encrypt(rd, m) }); p != "" {
+		c.r.Violate("encrypt/"+site+"/"+k.class+":panic", "Encrypt panicked: "+p, rec(k, "m", m))
+		return nil, nil, false
+	}
+	return ct, err, true
+}
+
+func (c *chk) dec(k *key, ct *big.Int, site string) (m *big.Int, err error, ok bool) {
+	if p := try(func() { m, err = k.sk.Decrypt(ct) }); p != "" {
+		c.r.Violate("decrypt/"+site+"/"+k.class+":panic", "Decrypt panicked: "+p, rec(k, "c", ct))
+		return nil, nil, false
+	}
+	return m, err, true
+}
+
+func (c *chk) add(k *key, c1, c2 *big.Int, site string) (o *big.Int, err error, ok bool) {
+	if p := try(func() { o, err = k.sk.PublicKey.HomoAdd(c1, c2) }); p != "" {
+		c.r.Violate("homoadd/"+site+"/"+k.class+":panic", "HomoAdd panicked: "+p, rec(k, "c1", c1, "c2", c2))
+		return nil, nil, false
+	}
+	return o, err, true
+}
+
+func (c *chk) mul(k *key, m, c1 *big.Int, site string) (o *big.Int, err error, ok bool) {
+	if p := try(func() { o, err = k.sk.PublicKey.HomoMult(m, c1) }); p != "" {
+		c.r.Violate("homomult/"+site+"/"+k.class+":panic", "HomoMult panicked: "+p, rec(k, "m", m, "c1", c1))
+		return nil, nil, false
+	}
+	return o, err, true
+}
+
+func rec(k *key, kv ...interface{}) map[string]string {
+	m := map[string]string{"key": k.name, "N": k.sk.N.String(), "P": k.sk.P.String(), "Q": k.sk.Q.String()}
+	for i := 0; i+1 < len(kv); i += 2 {
+		if b, ok := kv[i+1].(*big.Int); ok {
+			if b == nil {
+				m[kv[i].(string)] = "<nil>"
+			} else {
+				m[kv[i].(string)] = b.String()
+			}
+		} else {
+			m[kv[i].(string)] = fmt.Sprint(kv[i+1])
+		}
+	}
+	return m
+}
+
+func (k *key) init() *key {
+	k.n2 = new(big.Int).Mul(k.sk.N, k.sk.N)
+	return k
+}
+
+func (k *key) unit(c *big.Int) bool {
+	if c == nil || c.Sign() <= 0 || c.Cmp(k.n2) >= 0 {
+		return false
+	}
+	return new(big.Int).GCD(nil, nil, c, k.sk.N).Cmp(bigOne) == 0
+}
+
+// isUnit: 0 < c < N^2 and gcd(c, N) = 1.
+func isUnit(c, N *big.Int) bool {
+	if c == nil || c.Sign() <= 0 || c.Cmp(new(big.Int).Mul(N, N)) >= 0 {
+		return false
+	}
+	return new(big.Int).GCD(nil, nil, c, N).Cmp(bigOne) == 0
+}
+
+// decryptsTo: Decrypt(ct) succeeds, equals want and agrees with the CRT reference.
+func (c *chk) decryptsTo(k *key, ct, want *big.Int, area, site string, extra ...interface{}) bool {
+	c.ev(1)
+	if !k.unit(ct) {
+		c.r.Violate(area+"/"+site+"/result-not-a-unit-mod-N2@"+k.class, "ciphertext produced by the library is not a unit modulo N^2 inside [0,N^2)",
+			rec(k, append(extra, "c", ct)...))
+		return false
+	}
+	d, err, ok := c.dec(k, ct, site)
+	if !ok {
+		return false
+	}
+	if err != nil {
+		c.r.Violate(area+"/"+site+"/decrypt-refused@"+k.class, "Decrypt refused a ciphertext produced by the library: "+err.Error(), rec(k, append(extra, "c", ct)...))
+		return false
+	}
+	ref := k.crt.Decrypt(ct)
+	if d == nil || d.Cmp(ref) != 0 {
+		c.r.Violate(area+"/"+site+"/decrypt-differs-from-crt@"+k.class, "Decrypt disagrees with the independent CRT decryption",
+			rec(k, append(extra, "c", ct, "lib", d, "crt", ref)...))
+		return false
+	}
+	if d.Cmp(want) != 0 {
+		c.r.Violate(area+"/"+site+"/wrong-plaintext@"+k.class, "decryption does not give the expected plaintext",
+			rec(k, append(extra, "c", ct, "got", d, "want", want)...))
+		return false
+	}
+	return true
+}
+
+// ---- A. all ciphertexts of a tiny key ----
+
+func (c *chk) allCiphertexts(k *key) {
+	N := k.sk.N.Int64()
+	P, Q := k.sk.P.Int64(), k.sk.Q.Int64()
+	N2 := N * N
+	const chunk = 1 << 14
+	nch := int((N2 + chunk - 1) / chunk)
+	hist := make([]int32, N)
+	var units int64
+	core.ParallelFor(nch, runtime.NumCPU(), func(ci int) {
+		lo, hi := int64(ci)*chunk, int64(ci+1)*chunk
+		if hi > N2 {
+			hi = N2
+		}
+		ct := new(big.Int)
+		for v := lo; v < hi; v++ {
+			ct.SetInt64(v)
+			unit := v%P != 0 && v%Q != 0
+			d, err, ok := c.dec(k, ct, "all-ciphertexts")
+			if !ok {
+				continue
+			}
+			if !unit {
+				if err == nil {
+					c.r.Violate("domain/Decrypt/ciphertext-shares-factor-with-N/accepted@tiny", "Decrypt returned a plaintext for a ciphertext that is not a unit modulo N", rec(k, "c", ct, "got", d))
+				}
+				continue
+			}
+			if err != nil {
+				c.r.Violate("decrypt/all-ciphertexts/unit-refused@tiny", "Decrypt refused a unit of Z_{N^2} (every unit is an encryption of some m): "+err.Error(), rec(k, "c", ct))
+				continue
+			}
+			ref := k.crt.Decrypt(ct)
+			if d == nil || d.Cmp(ref) != 0 {
+				c.r.Violate("decrypt/all-ciphertexts/decrypt-differs-from-crt@tiny", "Decrypt disagrees with the independent CRT decryption", rec(k, "c", ct, "lib", d, "crt", ref))
+				continue
+			}
+			atomic.AddInt32(&hist[ref.Int64()], 1)
+			atomic.AddInt64(&units, 1)
+		}
+		c.ev(hi - lo)
+	})
+	// reference self-check: Paillier is a bijection Z_N x Z_N^* -> Z_{N^2}^*, so every m has phi(N) preimages
+	phi := (P - 1) * (Q - 1)
+	seen := 0
+	for m, h := range hist {
+		if h > 0 {
+			seen++
+		}
+		if int64(h) != phi && c.r.NViolations() == 0 {
+			c.r.Violate("infrastructure/ref-crt-selfcheck", "CRT reference: plaintext does not have phi(N) preimages", rec(k, "m", m, "preimages", h, "phi", phi))
+			break
+		}
+	}
+	c.r.Count("tiny_ciphertexts_decrypted", N2)
+	c.r.Count("tiny_unit_ciphertexts", units)
+	c.r.Count("distinct_plaintexts_measured", int64(seen))
+}
+
+// ---- B. all plaintexts ----
+
+// allPlaintexts encrypts every m in [0,N), checks the ciphertext against the formula with
+// the returned randomness, decrypts (library and CRT). Returns one ciphertext per m when keep is set.
+func (c *chk) allPlaintexts(k *key, keep bool) []*big.Int {
+	N := k.sk.N.Int64()
+	const chunk = 1 << 12
+	nch := int((N + chunk - 1) / chunk)
+	var table []*big.Int
+	if keep {
+		table = make([]*big.Int, N)
+	}
+	seen := make([]uint32, (N+31)/32)
+	core.ParallelFor(nch, runtime.NumCPU(), func(ci int) {
+		lo, hi := int64(ci)*chunk, int64(ci+1)*chunk
+		if hi > N {
+			hi = N
+		}
+		rd := core.NewDRBG(fmt.Sprintf("c14/all-m/%s/%d", k.name, ci))
+		for v := lo; v < hi; v++ {
+			m := big.NewInt(v)
+			// (Encrypt is a one-line wrapper of EncryptAndReturnRandomness; it is exercised on every key by the battery)
+			c2, x, err2, ok2 := c.encR(k, rd, m, "all-plaintexts")
+			if !ok2 {
+				continue
+			}
+			if err2 != nil {
+				c.r.Violate("encrypt/all-plaintexts/in-range-plaintext-refused@"+k.class, "Encrypt refused m in [0,N)", rec(k, "m", m, "err", err2))
+				continue
+			}
+			if x == nil || x.Sign() <= 0 || x.Cmp(k.sk.N) >= 0 || new(big.Int).GCD(nil, nil, x, k.sk.N).Cmp(bigOne) != 0 {
+				c.r.Violate("encrypt/all-plaintexts/randomness-not-a-unit@"+k.class, "returned randomness x is not a unit of Z_N", rec(k, "m", m, "x", x))
+			} else if want := refEncrypt(k.sk.N, m, x); c2.Cmp(want) != 0 {
+				c.r.Violate("encrypt/all-plaintexts/ciphertext-differs-from-formula@"+k.class, "c != (1+mN) x^N mod N^2 for the returned x", rec(k, "m", m, "x", x, "c", c2, "want", want))
+			}
+			if c.decryptsTo(k, c2, m, "encrypt", "all-plaintexts/EncryptAndReturnRandomness", "m", m) {
+				seen[v/32] |= 1 << uint(v%32) // chunk bounds are multiples of 32: one writer per word
+			}
+			if keep {
+				table[v] = c2
+			}
+		}
+	})
+	var n int64
+	for _, w := range seen {
+		for ; w != 0; w &= w - 1 {
+			n++
+		}
+	}
+	c.r.Count("plaintexts_enumerated", N)
+	c.r.Count("distinct_plaintexts_measured", n)
+	return table
+}
+
+// ---- C. all pairs on a tiny key ----
+
+func (c *chk) allPairs(k *key, table []*big.Int) {
+	N := k.sk.N.Int64()
+	bigN := k.sk.N
+	core.ParallelFor(int(N), runtime.NumCPU(), func(a int) {
+		A := big.NewInt(int64(a))
+		if table[a] == nil {
+			return
+		}
+		want := new(big.Int)
+		for b := int64(0); b < N; b++ {
+			if table[b] == nil {
+				continue
+			}
+			B := big.NewInt(b)
+			// HomoAdd(E[a], E[b]) -> a+b mod N
+			s, err, ok := c.add(k, table[a], table[b], "all-pairs")
+			if ok {
+				if err != nil {
+					c.r.Violate("homoadd/all-pairs/valid-operands-refused@tiny", "HomoAdd refused two valid ciphertexts: "+err.Error(), rec(k, "m1", A, "m2", B))
+				} else {
+					want.Add(A, B).Mod(want, bigN)
+					c.decryptsTo(k, s, want, "homoadd", "all-pairs", "m1", A, "m2", B)
+				}
+			}
+			// HomoMult(a, E[b]) -> a*b mod N
+			p, err, ok := c.mul(k, A, table[b], "all-pairs")
+			if ok {
+				if err != nil {
+					c.r.Violate("homomult/all-pairs/valid-operands-refused@tiny", "HomoMult refused a valid scalar and ciphertext: "+err.Error(), rec(k, "k", A, "m", B))
+				} else {
+					want.Mul(A, B).Mod(want, bigN)
+					c.decryptsTo(k, p, want, "homomult", "all-pairs", "k", A, "m", B)
+				}
+			}
+		}
+	})
+	c.r.Count("tiny_pairs_homoadd", N*N)
+	c.r.Count("tiny_pairs_homomult", N*N)
+}
+
+// ---- D. boundary battery (every key) ----
+
+type named struct {
+	n string
+	v *big.Int
+}
+
+func plaintextAlphabet(k *key, thorough bool) []named {
+	N := k.sk.N
+	gen := func(label string) *big.Int {
+		g := new(big.Int).SetBytes(core.Bytes("c14/generic/"+label+"/"+k.name, (N.BitLen()+7)/8+8))
+		return g.Mod(g, N)
+	}
+	al := []named{
+		{"0", big.NewInt(0)},
+		{"1", big.NewInt(1)},
+		{"N-1", new(big.Int).Sub(N, bigOne)},
+		{"N/2", new(big.Int).Rsh(N, 1)},
+		{"generic", gen("a")},
+	}
+	if thorough {
+		al = append(al, named{"N/2+1", new(big.Int).Add(new(big.Int).Rsh(N, 1), bigOne)}, named{"generic'", gen("b")})
+	}
+	return al
+}
+
+func (c *chk) battery(k *key, thorough bool, workers int) {
+	r := c.r
+	N := k.sk.N
+	N2 := new(big.Int).Mul(N, N)
+	al := plaintextAlphabet(k, thorough)
+	n := len(al)
+	E := make([]*big.Int, n)
+	cs := func(op string, cl ...string) {
+		s := k.name + "|" + op
+		for _, x := range cl {
+			s += "|" + x
+		}
+		r.Distinct("cases", s)
+	}
+	// singles: two successive encryptions from one stream
+	core.ParallelFor(n, workers, func(i int) {
+		rd := core.NewDRBG("c14/battery/" + k.name + "/" + al[i].n)
+		m := al[i].v
+		c1, err1, ok1 := c.enc(k, rd, m, "boundary")
+		c2, x, err2, ok2 := c.encR(k, rd, m, "boundary")
+		cs("enc", al[i].n)
+		if !ok1 || !ok2 {
+			return
+		}
+		if err1 != nil || err2 != nil {
+			r.Violate("encrypt/boundary/in-range-plaintext-refused/"+al[i].n+"@"+k.class, "Encrypt refused m in [0,N)", rec(k, "m", m, "err1", err1, "err2", err2))
+			return
+		}
+		if x == nil || x.Sign() <= 0 || x.Cmp(N) >= 0 || new(big.Int).GCD(nil, nil, x, N).Cmp(bigOne) != 0 {
+			r.Violate("encrypt/boundary/randomness-not-a-unit@"+k.class, "returned randomness x is not a unit of Z_N", rec(k, "m", m, "x", x))
+		} else if want := refEncrypt(N, m, x); c2.Cmp(want) != 0 {
+			r.Violate("encrypt/boundary/ciphertext-differs-from-formula/"+al[i].n+"@"+k.class, "c != (1+mN) x^N mod N^2 for the returned x", rec(k, "m", m, "x", x, "c", c2, "want", want))
+		}
+		c.decryptsTo(k, c1, m, "encrypt", "boundary/"+al[i].n, "m", m)
+		if c.decryptsTo(k, c2, m, "encrypt", "boundary/"+al[i].n, "m", m) {
+			E[i] = c2
+		}
+		// freshness: only where a repeat of the randomness is not a legitimate event (|Z_N^*| >= ~2^100)
+		if N.BitLen() >= 100 {
+			c.ev(1)
+			cs("fresh", al[i].n)
+			if c1.Cmp(c2) == 0 {
+				r.Violate("encrypt/freshness/same-ciphertext-twice@"+k.class, "two successive encryptions of the same plaintext are identical", rec(k, "m", m, "c", c1))
+			}
+		}
+		r.Sample(4, map[string]string{"key": k.name, "case": "Encrypt twice, Decrypt, CRT", "m-class": al[i].n, "m": short(m), "c1": short(c1), "c2": short(c2)})
+	})
+	for i := range E {
+		if E[i] == nil {
+			return // already reported
+		}
+	}
+	// pairs
+	core.ParallelFor(n*n, workers, func(ij int) {
+		i, j := ij/n, ij%n
+		a, b := al[i].v, al[j].v
+		want := new(big.Int)
+		if s, err, ok := c.add(k, E[i], E[j], "boundary"); ok {
+			cs("add", al[i].n, al[j].n)
+			if err != nil {
+				r.Violate("homoadd/boundary/valid-operands-refused@"+k.class, "HomoAdd refused two valid ciphertexts: "+err.Error(), rec(k, "m1", a, "m2", b))
+			} else {
+				want.Add(a, b).Mod(want, N)
+				c.decryptsTo(k, s, want, "homoadd", "pair/"+al[i].n+"+"+al[j].n, "m1", a, "m2", b)
+			}
+		}
+		if p, err, ok := c.mul(k, a, E[j], "boundary"); ok {
+			cs("mul", al[i].n, al[j].n)
+			if err != nil {
+				r.Violate("homomult/boundary/valid-operands-refused@"+k.class, "HomoMult refused a valid scalar and ciphertext: "+err.Error(), rec(k, "k", a, "m", b))
+			} else {
+				want.Mul(a, b).Mod(want, N)
+				c.decryptsTo(k, p, want, "homomult", "pair/"+al[i].n+"*"+al[j].n, "k", a, "m", b)
+			}
+		}
+	})
+	// triples: (a+b)+c and a*b+c (the MtA shape)
+	core.ParallelFor(n*n*n, workers, func(ijk int) {
+		i, j, l := ijk/(n*n), (ijk/n)%n, ijk%n
+		a, b, d := al[i].v, al[j].v, al[l].v
+		want := new(big.Int)
+		if s, err, ok := c.add(k, E[i], E[j], "boundary"); ok && err == nil {
+			if s2, err2, ok2 := c.add(k, s, E[l], "boundary"); ok2 {
+				cs("add3", al[i].n, al[j].n, al[l].n)
+				if err2 != nil {
+					r.Violate("homoadd/boundary/valid-operands-refused@"+k.class, "HomoAdd refused a sum ciphertext: "+err2.Error(), rec(k, "m1", a, "m2", b, "m3", d))
+				} else {
+					want.Add(a, b).Add(want, d).Mod(want, N)
+					c.decryptsTo(k, s2, want, "homoadd", "triple/"+al[i].n+"+"+al[j].n+"+"+al[l].n, "m1", a, "m2", b, "m3", d)
+				}
+			}
+		}
+		if p, err, ok := c.mul(k, a, E[j], "boundary"); ok && err == nil {
+			if s2, err2, ok2 := c.add(k, p, E[l], "boundary"); ok2 {
+				cs("muladd", al[i].n, al[j].n, al[l].n)
+				if err2 != nil {
+					r.Violate("homoadd/boundary/valid-operands-refused@"+k.class, "HomoAdd refused a product ciphertext: "+err2.Error(), rec(k, "k", a, "m", b, "m3", d))
+				} else {
+					want.Mul(a, b).Add(want, d).Mod(want, N)
+					c.decryptsTo(k, s2, want, "homomult", "triple/"+al[i].n+"*"+al[j].n+"+"+al[l].n, "k", a, "m", b, "m3", d)
+				}
+			}
+		}
+	})
+	// out-of-domain operands
+	good := E[n-1] // encryption of the generic plaintext
+	goodM := al[n-1].v
+	badPlain := []named{
+		{"-1", big.NewInt(-1)},
+		{"N", new(big.Int).Set(N)},
+		{"N+1", new(big.Int).Add(N, bigOne)},
+	}
+	badRange := []named{
+		{"-1", big.NewInt(-1)},
+		{"N^2", new(big.Int).Set(N2)},
+		{"N^2+1", new(big.Int).Add(N2, bigOne)},
+	}
+	nonUnit := []named{
+		{"0", big.NewInt(0)},
+		{"P", new(big.Int).Set(k.sk.P)},
+		{"Q", new(big.Int).Set(k.sk.Q)},
+		{"N", new(big.Int).Set(N)},
+		{"P*N", new(big.Int).Mul(k.sk.P, N)},
+		{"N^2-N", new(big.Int).Sub(N2, N)},
+		{"Q*Enc(generic) mod N^2", new(big.Int).Mod(new(big.Int).Mul(k.sk.Q, good), N2)},
+	}
+	// keyClass=true puts the value class into the finding key (distinct bounds are distinct guards);
+	// the non-unit values all exercise the same (missing) guard and share one key per operation/operand.
+	refuse := func(op, operand, class string, keyClass, must bool, val *big.Int, call func() (*big.Int, error)) {
+		c.ev(1)
+		cs("domain", op, operand, class)
+		var out *big.Int
+		var err error
+		kc := ""
+		if keyClass {
+			kc = "/" + class
+		}
+		if p := try(func() { out, err = call() }); p != "" {
+			r.Violate("domain/"+op+"/"+operand+kc+"@"+k.class+":panic", op+" panicked on an out-of-domain operand: "+p, rec(k, "operand-class", class, "operand", val))
+			return
+		}
+		if err == nil {
+			if !must {
+				r.Count("nonunit_accepted_by_homo_ops", 1)
+				return
+			}
+			r.Violate("domain/"+op+"/"+operand+kc+"/accepted", op+" returned a result instead of an error for an out-of-domain operand ("+operand+")",
+				rec(k, "operand-class", class, "operand", val, "result", out))
+		}
+	}
+	rd := core.NewDRBG("c14/battery-domain/" + k.name)
+	for _, b := range badPlain {
+		b := b
+		refuse("Encrypt", "plaintext-outside-[0,N)", b.n, true, true, b.v, func() (*big.Int, error) { return k.sk.PublicKey.Encrypt(rd, b.v) })
+		refuse("EncryptAndReturnRandomness", "plaintext-outside-[0,N)", b.n, true, true, b.v, func() (*big.Int, error) {
+			o, _, e := k.sk.PublicKey.EncryptAndReturnRandomness(rd, b.v)
+			return o, e
+		})
+		refuse("HomoMult", "scalar-outside-[0,N)", b.n, true, true, b.v, func() (*big.Int, error) { return k.sk.PublicKey.HomoMult(b.v, good) })
+	}
+	for _, b := range badRange {
+		b := b
+		refuse("HomoMult", "ciphertext-outside-[0,N^2)", b.n, true, true, b.v, func() (*big.Int, error) { return k.sk.PublicKey.HomoMult(goodM, b.v) })
+		refuse("HomoAdd", "first-ciphertext-outside-[0,N^2)", b.n, true, true, b.v, func() (*big.Int, error) { return k.sk.PublicKey.HomoAdd(b.v, good) })
+		refuse("HomoAdd", "second-ciphertext-outside-[0,N^2)", b.n, true, true, b.v, func() (*big.Int, error) { return k.sk.PublicKey.HomoAdd(good, b.v) })
+		refuse("Decrypt", "ciphertext-outside-[0,N^2)", b.n, true, true, b.v, func() (*big.Int, error) { return k.sk.Decrypt(b.v) })
+	}
+	for _, b := range nonUnit {
+		b := b
+		if isUnit(b.v, N) { // cannot happen; keeps the oracle honest
+			continue
+		}
+		refuse("Decrypt", "ciphertext-shares-factor-with-N", b.n, false, true, b.v, func() (*big.Int, error) { return k.sk.Decrypt(b.v) })
+		refuse("HomoMult", "ciphertext-shares-factor-with-N", b.n, false, strictNonUnitOnHomoOps, b.v, func() (*big.Int, error) { return k.sk.PublicKey.HomoMult(goodM, b.v) })
+		refuse("HomoAdd", "first-ciphertext-shares-factor-with-N", b.n, false, strictNonUnitOnHomoOps, b.v, func() (*big.Int, error) { return k.sk.PublicKey.HomoAdd(b.v, good) })
+		refuse("HomoAdd", "second-ciphertext-shares-factor-with-N", b.n, false, strictNonUnitOnHomoOps, b.v, func() (*big.Int, error) { return k.sk.PublicKey.HomoAdd(good, b.v) })
+	}
+	r.Count("keys_with_boundary_battery", 1)
+}
+
+func short(b *big.Int) string {
+	if b == nil {
+		return "<nil>"
+	}
+	s := b.String()
+	if len(s) > 40 {
+		return s[:18] + "…" + s[len(s)-18:] + fmt.Sprintf("(%d bits)", b.BitLen())
+	}
+	return s
+}
+
+// ---- E. structure of a key ----
+
+func (c *chk) structure(k *key, origin string) {
+	r := c.r
+	sk := k.sk
+	c.ev(1)
+	r.Distinct("cases", k.name+"|structure")
+	bad := func(what, msg string) {
+		r.Violate("keygen/"+origin+"/"+what, msg, rec(k, "requested-bits", k.L, "LambdaN", sk.LambdaN, "PhiN", sk.PhiN))
+	}
+	if sk.N == nil || sk.P == nil || sk.Q == nil || sk.LambdaN == nil || sk.PhiN == nil {
+		r.Violate("keygen/"+origin+"/nil-field", "key has a nil field", map[string]string{"key": k.name})
+		return
+	}
+	if sk.N.BitLen() != k.L {
+		bad("modulus-bit-length", fmt.Sprintf("modulus has %d bits, %d requested", sk.N.BitLen(), k.L))
+	}
+	if new(big.Int).Mul(sk.P, sk.Q).Cmp(sk.N) != 0 {
+		bad("N-not-P-times-Q", "N != P*Q")
+	}
+	if sk.P.Cmp(sk.Q) == 0 {
+		bad("P-equals-Q", "P == Q")
+	}
+	if !isSafePrime(sk.P) {
+		bad("P-not-safe-prime", "P is not a safe prime")
+	}
+	if !isSafePrime(sk.Q) {
+		bad("Q-not-safe-prime", "Q is not a safe prime")
+	}
+	if d := new(big.Int).Sub(sk.P, sk.Q); d.BitLen() < k.L/2-pqBitLenDifference {
+		bad("primes-too-close", fmt.Sprintf("|P-Q| has %d bits, the library's bound is >= %d", d.BitLen(), k.L/2-pqBitLenDifference))
+	}
+	pm1, qm1 := new(big.Int).Sub(sk.P, bigOne), new(big.Int).Sub(sk.Q, bigOne)
+	phi := new(big.Int).Mul(pm1, qm1)
+	if phi.Cmp(sk.PhiN) != 0 {
+		bad("phi-mismatch", "PhiN != (P-1)(Q-1)")
+	}
+	lam := new(big.Int).Div(phi, new(big.Int).GCD(nil, nil, pm1, qm1))
+	if lam.Cmp(sk.LambdaN) != 0 {
+		bad("lambda-mismatch", "LambdaN != lcm(P-1,Q-1)")
+	}
+	r.Count("keys_structure_checked", 1)
+}
+
+// ---- F. generator ----
+
+type genJob struct {
+	L, seed int
+	conc    int // 0 = library default (runtime.NumCPU), as the library's tests call it
+	timeout time.Duration
+	done    chan struct{}
+	sk      *paillier.PrivateKey
+	pk      *paillier.PublicKey
+	err     error
+	pan     string
+	took    time.Duration
+}
+
+func startGen(L, seed, conc int, timeout time.Duration) *genJob {
+	j := &genJob{L: L, seed: seed, conc: conc, timeout: timeout, done: make(chan struct{})}
+	go func() {
+		t0 := time.Now()
+		defer close(j.done)
+		defer func() {
+			j.took = time.Since(t0)
+			if e := recover(); e != nil {
+				j.pan = fmt.Sprint(e)
+			}
+		}()
+		ctx, cancel := context.WithTimeout(context.Background(), timeout)
+		defer cancel()
+		rd := core.NewDRBG(fmt.Sprintf("c14/gen/L%d/seed%d/conc%d", L, seed, conc))
+		if conc == 0 {
+			j.sk, j.pk, j.err = paillier.GenerateKeyPair(ctx, rd, L)
+		} else {
+			j.sk, j.pk, j.err = paillier.GenerateKeyPair(ctx, rd, L, conc)
+		}
+	}()
+	return j
+}
+
+// collect waits for the jobs until the watchdog deadline; returns the finished ones.
+func (c *chk) collect(jobs []*genJob, deadline time.Time, thorough bool) {
+	r := c.r
+	var keys []*key
+	hung := 0
+	var hungList []string
+	for _, j := range jobs {
+		wait := time.Until(deadline)
+		if wait < 0 {
+			wait = 0
+		}
+		select {
+		case <-j.done:
+		case <-time.After(wait):
+			hung++
+			hungList = append(hungList, fmt.Sprintf("L%d/seed%d/conc%d", j.L, j.seed, j.conc))
+			r.Violate("c19-overlap/paillier.GenerateKeyPair/safe-prime-generator-does-not-return:hang",
+				"GenerateKeyPair did not return within the watchdog (GetRandomSafePrimesConcurrent: producers block on primeCh after the consumer left)",
+				map[string]interface{}{"modulusBitLen": j.L, "seed": j.seed, "concurrency(0=default)": j.conc, "watchdog_s": 120})
+			continue
+		}
+		name := fmt.Sprintf("generated-L%d-seed%d-conc%d", j.L, j.seed, j.conc)
+		r.Count("generator_calls_returned", 1)
+		if j.pan != "" {
+			r.Violate("keygen/GenerateKeyPair/call:panic", "GenerateKeyPair panicked: "+j.pan, map[string]interface{}{"modulusBitLen": j.L, "seed": j.seed, "conc": j.conc})
+			continue
+		}
+		if j.err != nil {
+			r.Violate("keygen/GenerateKeyPair/error-returned", "GenerateKeyPair returned an error: "+j.err.Error(), map[string]interface{}{"modulusBitLen": j.L, "seed": j.seed, "conc": j.conc})
+			continue
+		}
+		if j.sk == nil || j.pk == nil || j.sk.N == nil || j.pk.N == nil || j.sk.P == nil || j.sk.Q == nil {
+			r.Violate("keygen/GenerateKeyPair/nil-field", "GenerateKeyPair returned a nil key or field", map[string]interface{}{"modulusBitLen": j.L, "seed": j.seed})
+			continue
+		}
+		k := (&key{name: name, class: "generated", L: j.L, sk: j.sk}).init()
+		if j.pk.N.Cmp(j.sk.N) != 0 {
+			r.Violate("keygen/GenerateKeyPair/public-private-N-differ", "public and private modulus differ", rec(k, "pkN", j.pk.N))
+		}
+		c.structure(k, "GenerateKeyPair")
+		if k.crt = newCRT(j.sk.P, j.sk.Q); k.crt == nil {
+			continue // structure() has reported why
+		}
+		keys = append(keys, k)
+		r.Distinct("generated_moduli", j.sk.N.String())
+	}
+	r.Count("generator_calls_hung", int64(hung))
+	if hung > 0 {
+		r.Set("generator_calls_hung_list(conc0=library default)", hungList)
+	}
+	core.ParallelFor(len(keys), runtime.NumCPU(), func(i int) { c.battery(keys[i], thorough, 1) })
+}
+
+// ---- Run ----
+
+func Run(r *core.Run) {
+	thorough := r.Tier == "thorough"
+	c := &chk{r: r}
+	start := time.Now()
+	debug.SetGCPercent(400)        // tens of millions of short-lived big.Ints; the process runs only this check
+	phases := map[string]float64{} // informational only (never an oracle)
+	last := start
+	phase := func(name string) {
+		phases[name] += float64(int(time.Since(last).Seconds()*10)) / 10
+		last = time.Now()
+	}
+
+	// F (started first, collected last): generator calls for the smallest sizes it supports.
+	// L < 18 is not requested: for L/2 in {6,7,8} exactly one safe prime has the generator's shape, so the
+	// library's own |P-Q| loop can never end (non-termination by construction, not part of this property).
+	sizes := []int{18, 20, 22, 24, 32, 64, 128, 256}
+	if thorough {
+		sizes = append(sizes, 48, 96, 512)
+	}
+	var jobs []*genJob
+	for _, L := range sizes {
+		for seed := 0; seed < 8; seed++ {
+			conc := 0 // library default, as the library's tests call it
+			if seed%2 == 1 {
+				conc = 1
+			}
+			jobs = append(jobs, startGen(L, seed, conc, 10*time.Minute))
+		}
+	}
+	r.Count("generator_calls", int64(len(jobs)))
+	genDeadline := start.Add(125 * time.Second)
+
+	// keys
+	tinyL := []int{6, 12}
+	tinyPairsL := map[int]bool{6: true, 12: true}  // all (m1,m2) and (k,m)
+	tinyCipherL := map[int]bool{6: true, 12: true} // all c in [0,N^2)
+	smallL := []int{18, 20}
+	if thorough {
+		tinyL = append(tinyL, 14, 16) // L=14: + all ciphertexts; L=16: all m only (N^2 ~ 1.6e9 is out of budget)
+		tinyCipherL[14] = true
+		smallL = append(smallL, 22)
+	}
+	var all []*key
+	for _, L := range tinyL {
+		ks := keySpace(L, false, "tiny")
+		r.Set(fmt.Sprintf("tiny_keys_L%d", L), len(ks))
+		for _, k := range ks {
+			c.structure(k, "hand-built") // self-check of the hand-built key against the same rules
+			if tinyCipherL[L] {
+				c.allCiphertexts(k)
+				phase("tiny_all_ciphertexts")
+			}
+			table := c.allPlaintexts(k, true)
+			phase("tiny_all_plaintexts")
+			if tinyPairsL[L] {
+				c.allPairs(k, table)
+				phase("tiny_all_pairs")
+			}
+			all = append(all, k)
+			r.Sample(8, map[string]string{"key": k.name, "case": "all ciphertexts in [0,N^2), all m, all pairs", "N": k.sk.N.String()})
+		}
+	}
+	for _, L := range smallL {
+		ks := keySpace(L, true, "small")
+		r.Set(fmt.Sprintf("small_keys_L%d", L), len(ks))
+		for _, k := range ks {
+			c.structure(k, "hand-built")
+			c.allPlaintexts(k, false)
+			all = append(all, k)
+		}
+	}
+	phase("small_all_plaintexts")
+	// vendored 2048-bit keys
+	for i, f := range fix.EcFixtures() {
+		sk := f.PaillierSK
+		k := (&key{name: fmt.Sprintf("vendored-%d", i), class: "vendored", L: 2048, sk: sk}).init()
+		c.structure(k, "vendored")
+		if k.crt = newCRT(sk.P, sk.Q); k.crt != nil {
+			all = append(all, k)
+		}
+	}
+	phase("vendored_structure")
+	sort.SliceStable(all, func(i, j int) bool { return all[i].sk.N.BitLen() > all[j].sk.N.BitLen() })
+	// batteries: the large keys use the cores inside one key, the small ones across keys
+	var smallKeys []*key
+	for _, k := range all {
+		if k.sk.N.BitLen() >= 1024 {
+			c.battery(k, thorough, runtime.NumCPU())
+		} else {
+			smallKeys = append(smallKeys, k)
+		}
+	}
+	phase("battery_large_keys")
+	core.ParallelFor(len(smallKeys), runtime.NumCPU(), func(i int) { c.battery(smallKeys[i], thorough, 1) })
+	phase("battery_small_keys")
+
+	c.collect(jobs, genDeadline, thorough)
+	phase("generated_keys")
+
+	// one 2048-bit generation (thorough only), at most ~3 minutes
+	if thorough {
+		if r.Elapsed() > 5*time.Minute {
+			r.Cap("2048-bit GenerateKeyPair skipped: time budget")
+		} else {
+			j := startGen(2048, 0, 0, 175*time.Second)
+			select {
+			case <-j.done:
+				if j.err != nil {
+					r.Cap(fmt.Sprintf("2048-bit GenerateKeyPair did not finish within 175 s (%v); skipped", j.err))
+				} else {
+					r.Set("generate_2048_seconds", int(j.took.Seconds()))
+					c.collect([]*genJob{j}, time.Now().Add(time.Second), thorough)
+				}
+			case <-time.After(175*time.Second + 125*time.Second):
+				c.collect([]*genJob{j}, time.Now(), thorough)
+			}
+		}
+	}
+
+	if !strictNonUnitOnHomoOps {
+		r.Assume("'ciphertexts sharing a factor with N are refused' is required of Decrypt only; HomoAdd/HomoMult must enforce the range guards (acceptances of non-units there are counted as nonunit_accepted_by_homo_ops)")
+	}
+	r.Assume("requested modulus lengths are even (GenerateKeyPair gives each prime len/2 bits)")
+	r.Assume("freshness (two encryptions differ) is asserted only for moduli of >= 100 bits, where a repeated randomness is not a legitimate event")
+	r.Assume("hand-built tiny/small keys fill N, PhiN, LambdaN, P, Q exactly as GenerateKeyPair does; the small ones are exactly the keys the generator can emit at that length")
+	phase("generate_2048")
+	r.Set("phase_seconds(info)", phases)
+	r.Set("evaluations", int(atomic.LoadInt64(&c.evals)))
+	r.Set("distinct_nontrivial", r.NDistinct("cases")+int(r.Get("distinct_plaintexts_measured")))
+	r.Set("rule", "cases = (key, operation, operand classes) strings of the boundary battery (measured as a set) plus, for the exhaustive passes, "+
+		"the number of distinct plaintexts actually returned by Decrypt (bitset/histogram measured per key); evaluations = oracle evaluations "+
+		"(one per decrypted ciphertext / refused operand / key structure)")
+}
